@@ -101,7 +101,21 @@ func c18NoWriteBeforeReject(c *Ctx) {
 			if t.name == "processMessage" && strings.HasSuffix(wname, "SaveFSM") {
 				a := w.Common().Args
 				if p := npath(a[len(a)-1]); strings.Contains(p, `.Do("event_signing_restart"`) && !strings.HasPrefix(p, "phi(") {
-					r.OKd("C18/R2", short+":restart-prehandler:"+wkey, "reviewed: signing restart pre-handler — persists a restart that depends on the stored state and the clock only (assumption recorded; C07/R3 pins the pre-handlers)", c.PosOf(w.(ssa.Instruction)), "dump = "+trimPath(p))
+					// the pre-handler is identified by the state suffix it is taken for (stable under reordering)
+					which := wkey
+					for _, cd := range ssax.Conds(fn) {
+						call, isCall := ssax.Resolve(cd.X).(*ssa.Call)
+						if cd.Op != token.ILLEGAL || !isCall || ssax.FuncID(ssax.CalleeObj(call)) != "strings.HasSuffix" {
+							continue
+						}
+						sfx, isConst := ssax.ConstString(call.Common().Args[1])
+						e, okE := cd.BoolEdge(true)
+						if isConst && okE && !ssax.ReachableAvoiding(fn, w.(ssa.Instruction), []ssax.Edge{e}, nil) {
+							which = sfx
+						}
+					}
+					r.Fail("C18/R2", short+":restart-prehandler:"+which, "a message that is refused leaves the round as it was", c.PosOf(w.(ssa.Instruction)),
+						"before the message is decoded and checked, a round found in a state ending in "+which+" is restarted (Do(event_signing_restart)) and SAVED; if the message is then refused, the stored round has nevertheless moved to stage_signing_idle (dump = "+trimPath(p)+")")
 					continue
 				}
 			}
